@@ -1973,9 +1973,11 @@ class FileBuilder:
             self._build_dirs.created_dirs() + cache_file_created_dirs)
         dirs_to_remove = set([os.path.normcase(dir_) for dir_ in created_dirs])
         dirs_to_remove.update(self._build_dirs.norm_cased_error_created_dirs())
-        for dir_ in self._old_cache.created_dirs():
-            dirs_to_remove.discard(os.path.normcase(dir_))
 
+        # This includes the directories from the previous build that the
+        # current build recreated. It might be that they did not exist before
+        # the build, e.g. because they were replaced externally with a regular
+        # file that we moved out of the way. We recreate them below.
         for filename in self._new_cache.created_files():
             # Also remove a file from the previous build if we rebuilt it. If
             # it existed beforehand, then restore_all() brings it back.
